@@ -208,8 +208,12 @@ func EvalCase(idx int, c *Case, opt Options) CaseResult {
 		cr.Executions++
 		ds := compareMachineToSpec(c, m, mode)
 		ds = append(ds, overdrawn(c, m, mode)...)
+		mref := m // what the interpreter is compared with: the adapter's NumscriptExecutionResult when available
 		if opt.WithAdapter {
 			ma := RunMachineAdapter(rd.Script, rd.Vars, c.Bal, StoreNormal)
+			if ma.Panic == "" && !ma.Hang {
+				mref = ma
+			}
 			cr.Executions++
 			// the adapter must report exactly what the machine did
 			if ma.Panic != "" || ma.Hang || ma.Partial {
@@ -227,15 +231,15 @@ func EvalCase(idx int, c *Case, opt Options) CaseResult {
 				n, _ := new(big.Int).SetString(in.Posts[0].N, 10)
 				in.Posts[0].N = n.Add(n, big.NewInt(1)).String()
 			}
-			if m.Class == "compile" || in.Class == "compile" {
+			if mref.Class == "compile" || in.Class == "compile" {
 				// not in the language subset both runtimes accept
 				cr.CommonSubset = false
-				if m.Class != "compile" && in.Class == "compile" {
+				if mref.Class != "compile" && in.Class == "compile" {
 					// the renderer only emits the shared syntax: the interpreter's parser rejecting it is reported
 					ds = append(ds, Disagreement{Kind: "interp-vs-machine/parse", Mode: mode, Detail: "interpreter parser rejects a script the machine compiles: " + firstLines(in.Err, 3)})
 				}
 			} else {
-				ds = append(ds, compareInterp(c, m, in, mode)...)
+				ds = append(ds, compareInterp(c, mref, in, mode)...)
 			}
 		}
 		cr.Disagreements = append(cr.Disagreements, ds...)
